@@ -180,7 +180,13 @@ def check_cfg(F, R, cfg):
             edges = expr_guard_edges(dv, atom, True)
             sites = success_sites(dv)
             good = bool(edges) and bool(sites) and dominated(dv, [s["bb"] for s in sites], edges)
-            (R.ok if good else R.viol)("C03.decode.flag", I("CompressedEdwardsY::decompress"), "Some only when sqrt_ratio_i reported a square" if good else
+            tt_msg = None
+            if not good:
+                import tables
+                tt_ok, tt_msg = tables.decision_table(F, dec, [(r"edwards::decompress::step_1$", 4, {"valid": roles["flag"]})], ["valid"], {"valid": 1})
+                if tt_ok:
+                    good = True
+            (R.ok if good else R.viol)("C03.decode.flag", I("CompressedEdwardsY::decompress"), ("Some only when sqrt_ratio_i reported a square" + ("; structural form not recognised, " + tt_msg if tt_msg else "")) if good else
                                        "a Some exit is not dominated by the validity flag of step_1", *(() if good else (dv.loc(),)))
             good = False
             for s in sites:
@@ -193,6 +199,12 @@ def check_cfg(F, R, cfg):
                             t, p = rproj(dv, o)
                             got.append(int(p[1:]) if t is not None and re.search(r"decompress::step_1$", cname(t)) else None)
                         good = got == exp
+            if not good:
+                epa_ = F.adts.get("curve25519_dalek::edwards::EdwardsPoint")
+                if epa_:
+                    codec_results(F, epa_["variants"][0]["fields"][X]["ty"])
+                if FORMULA_OK.get((id(F), "CompressedEdwardsY::decompress[sign bit 0]")) and FORMULA_OK.get((id(F), "CompressedEdwardsY::decompress[sign bit 1]")):
+                    good = True      # structural form not recognised; C03.formula decides the coordinates of the decoded point for both sign bits
             (R.ok if good else R.viol)("C03.decode.wiring", I("CompressedEdwardsY::decompress"), "Some(step_2(self, X, Y, Z of step_1))" if good else "step_2 is not applied to step_1's (X,Y,Z) in order", *(() if good else (dv.loc(),)))
 
     # ------------------------------------------------------------------ encoder
